@@ -9,6 +9,7 @@ import (
 	"fmt"
 	"io"
 	"math/rand"
+	"os"
 	"runtime"
 	"sort"
 	"strconv"
@@ -100,15 +101,43 @@ func genClient(rng *rand.Rand) ascenario {
 	return sc
 }
 
-// yieldStats is a stats.Handler that does nothing but yield inside OutHeader.
-type yieldStats struct{ n int }
+// attemptLedger is a stats.Handler (public observation boundary): it counts,
+// per RPC (x-rid of the outgoing metadata), the attempts the channel BEGINS -
+// including those that never reach the wire (failed NewStream, HEADERS orphaned
+// in the control buffer) - and how many of them were announced as transparent
+// retries.  Optionally it yields inside OutHeader (see ascenario.Yield).
+type attemptLedger struct {
+	yield int
+	mu    sync.Mutex
+	begun map[int]int
+	trans map[int]int
+}
 
-func (yieldStats) TagRPC(ctx context.Context, _ *stats.RPCTagInfo) context.Context   { return ctx }
-func (yieldStats) TagConn(ctx context.Context, _ *stats.ConnTagInfo) context.Context { return ctx }
-func (yieldStats) HandleConn(context.Context, stats.ConnStats)                       {}
-func (y yieldStats) HandleRPC(_ context.Context, s stats.RPCStats) {
-	if _, ok := s.(*stats.OutHeader); ok {
-		for i := 0; i < y.n; i++ {
+type ridKey struct{}
+
+func (l *attemptLedger) TagRPC(ctx context.Context, _ *stats.RPCTagInfo) context.Context {
+	rid := -1
+	if md, ok := metadata.FromOutgoingContext(ctx); ok {
+		if v := md.Get("x-rid"); len(v) > 0 {
+			rid, _ = strconv.Atoi(v[0])
+		}
+	}
+	return context.WithValue(ctx, ridKey{}, rid)
+}
+func (*attemptLedger) TagConn(ctx context.Context, _ *stats.ConnTagInfo) context.Context { return ctx }
+func (*attemptLedger) HandleConn(context.Context, stats.ConnStats)                       {}
+func (l *attemptLedger) HandleRPC(ctx context.Context, s stats.RPCStats) {
+	switch e := s.(type) {
+	case *stats.Begin:
+		rid, _ := ctx.Value(ridKey{}).(int)
+		l.mu.Lock()
+		l.begun[rid]++
+		if e.IsTransparentRetryAttempt {
+			l.trans[rid]++
+		}
+		l.mu.Unlock()
+	case *stats.OutHeader:
+		for i := 0; i < l.yield; i++ {
 			runtime.Gosched()
 		}
 	}
@@ -146,27 +175,22 @@ type aconn struct {
 }
 
 type arpc struct {
-	idx       int
-	started   bool
-	clean     bool // started while no GOAWAY was in flight (all earlier ones passed a quiescent point)
-	startConn int  // index of the newest connection when the RPC started
-	racing    bool // started in a burst that also contains a GOAWAY
-	finished  bool
-	code      codes.Code
-	errText   string
-	msgs      []string
-	cancel    context.CancelFunc
-	attempts  []*attempt
+	idx      int
+	started  bool
+	racing   bool // started in a burst that also contains a GOAWAY
+	finished bool
+	code     codes.Code
+	errText  string
+	msgs     []string
+	cancel   context.CancelFunc
+	attempts []*attempt
 }
 
 func runClient(sc ascenario) *result {
 	res := newResult()
 	v := res.v
-	dopts := []grpc.DialOption{grpc.WithIdleTimeout(0)}
-	if sc.Yield > 0 {
-		dopts = append(dopts, grpc.WithStatsHandler(yieldStats{n: sc.Yield}))
-	}
-	fx, err := wire.NewClientFixture(dopts...)
+	ledger := &attemptLedger{yield: sc.Yield, begun: map[int]int{}, trans: map[int]int{}}
+	fx, err := wire.NewClientFixture(grpc.WithIdleTimeout(0), grpc.WithStatsHandler(ledger))
 	if err != nil {
 		v("harness", "fixture: %v", err)
 		return res
@@ -176,9 +200,6 @@ func runClient(sc ascenario) *result {
 		conns []*aconn
 		wg    sync.WaitGroup
 		stop  = make(chan struct{})
-		// connections whose handshake the scripted side could not complete: the
-		// channel may then be in TRANSIENT_FAILURE and fail RPCs at pick time
-		startFailures int
 	)
 	// acceptor: every dial of the channel becomes a scripted server connection
 	accDone := make(chan struct{})
@@ -210,9 +231,6 @@ func runClient(sc ascenario) *result {
 				}
 				if err := p.Start(init...); err != nil {
 					c.Close()
-					mu.Lock()
-					startFailures++
-					mu.Unlock()
 					continue
 				}
 				// visible to the script only once the server preface (SETTINGS) is written
@@ -232,14 +250,10 @@ func runClient(sc ascenario) *result {
 		rpcs[i] = &arpc{idx: i}
 	}
 	next := 0
-	goawayInFlight := false // a GOAWAY was written and no quiescent point has passed since
-	numConns := func() int { mu.Lock(); defer mu.Unlock(); return len(conns) }
 	startRPC := func(i int) {
 		r := rpcs[i]
 		ctx, cancel := context.WithCancel(metadata.AppendToOutgoingContext(context.Background(), "x-rid", strconv.Itoa(i)))
 		r.started, r.cancel = true, cancel
-		r.clean = !goawayInFlight
-		r.startConn = numConns() - 1
 		wg.Add(1)
 		go func() {
 			defer wg.Done()
@@ -307,7 +321,6 @@ func runClient(sc ascenario) *result {
 					c.trapFired = true
 					c.goaways = append(c.goaways, 0)
 					c.validN = 0
-					goawayInFlight = true
 					variants["trap"] = true
 					res.counters["goaways_sent"]++
 				case e.Dir == wire.In && e.Type == http2.FrameRSTStream:
@@ -366,7 +379,6 @@ func runClient(sc ascenario) *result {
 	quiesce := func() {
 		synctest.Wait()
 		ingest()
-		goawayInFlight = false
 		res.counters["quiescent_checks"]++
 		for _, c := range snapshot() {
 			if c.validN >= 0 && c.sealedAt < 0 {
@@ -495,7 +507,6 @@ func runClient(sc ascenario) *result {
 			}
 		}
 		c.goaways = append(c.goaways, id)
-		goawayInFlight = true
 		res.counters["goaways_sent"]++
 		c.peer.WriteGoAway(id, http2.ErrCodeNo, "verif")
 	}
@@ -588,7 +599,19 @@ func runClient(sc ascenario) *result {
 	// ---- final verdicts per RPC ----
 	cs := snapshot()
 	mu.Lock()
-	dialsAllServed := startFailures == 0 && fx.Dials() == len(cs)
+	ledger.mu.Lock()
+	begun, trans := ledger.begun, ledger.trans // every RPC goroutine has quiesced
+	ledger.mu.Unlock()
+	if os.Getenv("VERIF_DEBUG") != "" {
+		for _, c := range cs {
+			for _, e := range c.peer.Log() {
+				fmt.Printf("DBG conn%d %s\n", c.idx, e.String())
+			}
+		}
+		for _, r := range rpcs {
+			fmt.Printf("DBG rpc %d finished=%v code=%v err=%q msgs=%q attempts_begun=%d transparent=%d wire_attempts=%d\n", r.idx, r.finished, r.code, r.errText, r.msgs, begun[r.idx], trans[r.idx], len(r.attempts))
+		}
+	}
 	retried, unavailable, okCount := int64(0), int64(0), int64(0)
 	for _, r := range rpcs {
 		var acc []*attempt
@@ -630,11 +653,10 @@ func runClient(sc ascenario) *result {
 				answered = answered || a.touched
 			}
 			switch {
-			case len(r.msgs) == 0 && !answered && (len(r.attempts) != 1 ||
-				len(acc) == 0 && !(r.clean && r.attempts[0].conn == r.startConn)):
-				// Class of a known defect: the RPC was retried transparently (several
-				// attempts, or a single wire attempt that is not provably its first) and the
-				// new attempt died before the buffered SendMsg was replayed on it.
+			case len(r.msgs) == 0 && !answered && begun[r.idx] >= 2:
+				// Class of a known defect: the RPC was retried (the channel began a
+				// second attempt) and the new attempt died before the buffered SendMsg
+				// was replayed on it.
 				v("rpc-ok-although-never-answered-after-retry", "rpc %d finished OK (RecvMsg returned io.EOF) with no response message although no scripted server ever answered any of its streams: %s", r.idx, desc())
 				res.counters["rpcs_ok_without_any_answer"]++
 			case len(r.msgs) != 1:
@@ -659,8 +681,20 @@ func runClient(sc ascenario) *result {
 					v("accepted-stream-failed", "rpc %d failed with %q although its stream %d on conn %d is not above the GOAWAY id(s) %v and the scripted server completed it with OK: %s", r.idx, r.errText, a.id, a.conn, c.goaways, desc())
 				}
 			}
-			if len(acc) == 0 && !onPoisoned && dialsAllServed && r.clean && len(r.attempts) == 1 && r.attempts[0].conn == r.startConn {
-				v("unprocessed-not-retried", "rpc %d failed with %q: its first and only attempt (conn %d stream %d) was above GOAWAY id %v, i.e. unprocessed, and must be retried transparently once", r.idx, r.errText, r.attempts[0].conn, r.attempts[0].id, cs[r.attempts[0].conn].goaways)
+			// R2: the statement itself lets an unprocessed RPC end UNAVAILABLE; what it
+			// requires is that a stream above the id "fails as unprocessed (eligible for
+			// transparent retry)".  The only black-box effect of that marking is gRFC A6's
+			// single transparent retry of an RPC's FIRST attempt.  It is therefore judged
+			// only when the attempt ledger shows that the channel began exactly one
+			// attempt (so the unprocessed wire attempt was the first one and no retry -
+			// not even one that died before reaching the wire - was ever started), and
+			// the connection was not one the client had to tear down for a protocol
+			// violation (then streams fail with the connection error, which is allowed).
+			if len(acc) == 0 && !onPoisoned && len(r.attempts) == 1 && begun[r.idx] == 1 {
+				v("unprocessed-not-retried", "rpc %d failed with %q: the channel began exactly one attempt; it reached the wire as conn %d stream %d, above GOAWAY id %v, i.e. unprocessed and eligible for the one transparent retry, but no retry attempt was ever begun", r.idx, r.errText, r.attempts[0].conn, r.attempts[0].id, cs[r.attempts[0].conn].goaways)
+			}
+			if begun[r.idx] >= 2 {
+				res.counters["rpcs_unavailable_after_a_retry_attempt"]++
 			}
 		default:
 			v("unexpected-status", "rpc %d finished with %v (%s); only OK or UNAVAILABLE can result from GOAWAY handling: %s", r.idx, r.code, r.errText, desc())
